@@ -38,8 +38,10 @@ def determinism_gate(binary, n=1500):
                 checked += 1
                 if ref[idx] != line:
                     harness_error("determinism gate failed for %s at index %d: %r vs %r" % (name, idx, ref[idx], line))
-    if checked < n // 2:
+    stopped_early = any(rc == 1 for rc, _, _ in res)
+    if checked < n // 2 and not stopped_early:
         harness_error("determinism gate compared too few executions (%d)" % checked)
+    # a gate batch that stopped at a violation is fine: the search below reports it
     return checked
 
 
